@@ -1350,15 +1350,15 @@ Definition spec_override (ov : aobject) : result override :=
       if head_plain h && match objs with [] => true | _ => false end then ROk (OvBlock (h_name h) off rep)
       else RErr ov_forbidden
   | ARegister h r =>
-      if head_plain h && match ar_fields r with [] => true | _ => false end && is_none (ar_byte_order r)
-         && is_none (ar_bit_order r) && is_none (ar_size_bits r) && is_none (ar_allow_bit_overlap r)
+      if head_plain h && is_none (ar_byte_order r) && is_none (ar_bit_order r) && is_none (ar_size_bits r)
+         && is_none (ar_allow_bit_overlap r) && match ar_fields r with [] => true | _ => false end
       then ROk (OvRegister (h_name h) (ar_access r) (ar_address r) (or_default (ar_allow_address_overlap r) false)
                            (ar_reset r) (ar_repeat r))
       else RErr ov_forbidden
   | ACommand h c =>
-      if head_plain h && is_none (ak_fields_in c) && is_none (ak_fields_out c) && is_none (ak_byte_order c)
-         && is_none (ak_bit_order c) && is_none (ak_size_in c) && is_none (ak_size_out c)
-         && is_none (ak_allow_bit_overlap c)
+      if head_plain h && is_none (ak_byte_order c) && is_none (ak_bit_order c) && is_none (ak_allow_bit_overlap c)
+         && is_none (ak_size_in c) && is_none (ak_fields_in c) && is_none (ak_size_out c)
+         && is_none (ak_fields_out c)
       then ROk (OvCommand (h_name h) (ak_address c) (or_default (ak_allow_address_overlap c) false) (ak_repeat c))
       else RErr ov_forbidden
   | ABuffer _ _ => RErr (mk_err "ref_buffer" [])
